@@ -547,7 +547,7 @@ def execute(plan: dict[str, Any]) -> dict[str, Any]:
         "nontrivial": nontrivial,
         "faults_fired": {k: v for k, v in fired.items() if k in (
             "short_read", "eintr", "eio", "split_crlf", "split_bom", "split_multibyte", "forced_split")},
-        "probes": probes,
+        "probes": {**probes, **sched.probes},
         "ops": len(plan["variants"]) + 2,
         "sub_batch": plan["sub_batch"] + ("/concurrent" if n_clients > 1 else ""),
         "harness_error": harness_error,
